@@ -401,3 +401,6 @@ def run(ctx):  # noqa: F811
     r10_3(ctx, ctx.model)
     r10_4(ctx, ctx.model)
     r10_5(ctx, ctx.model)
+    # the "divide by the bin size" step of power_analyze is Field.weight with the non-scalar volumes of the power space
+    from .c06 import r06_8
+    r06_8(ctx, "R10.6")
